@@ -61,6 +61,7 @@ type Block struct {
 	// For [ListItemKind], it is the number of columns required to continue the block.
 	// For [FencedCodeBlockKind], it is the number of columns
 	// to strip at the beginning of each line.
+	// For [SetextHeadingKind], it is the offset of the heading underline.
 	indent int
 
 	// n is a kind-specific datum.
@@ -437,6 +438,8 @@ func (p *lineParser) ContainerKind() BlockKind {
 func (p *lineParser) MorphSetext(level int) {
 	p.container.kind = SetextHeadingKind
 	p.container.n = level
+	// Remember where the underline starts (after any container markers).
+	p.container.indent = p.lineStart + p.i
 }
 
 // TipKind returns the kind of the deepest open block.
@@ -1222,7 +1225,7 @@ func onCloseParagraph(source []byte, originalBlock *Block) []*Block {
 	contentStart := originalBlock.inlineChildren[0].Span().Start
 	var setextOrphanParagraph *Block
 	if originalBlock.Kind() == SetextHeadingKind {
-		blockStart := originalBlock.inlineChildren[len(originalBlock.inlineChildren)-1].Span().End
+		blockStart := originalBlock.indent
 		lineStart := blockStart
 		for source[lineStart] == ' ' || source[lineStart] == '\t' {
 			lineStart++
